@@ -35,6 +35,7 @@ fn space_for(tier: Tier) -> Space {
             s.list("triggers", crate::checks::c08::triggers().len() as u64, 16);
             s.list("whitespace under x", xws_crash_cases().len() as u64, 16);
             s.list("extreme counts", extreme_count_cases().len() as u64, 16);
+            s.list("deep nesting", (DEEP_SHAPES.len() * DEEP_DEPTHS.len()) as u64, 1);
         }
         Tier::Thorough => {
             s.ast("K", 5, 64).ast("Q", 3, 64).ast("CL", 3, 64).ast("G", 6, 64).ast("AN", 4, 64).ast("U", 4, 64).ast("CI", 3, 64).ast("ALT", 4, 64).ast("NEST", 6, 64).ast("GCM", 4, 64).ast("CAPQ", 6, 64).ast("BR", 5, 64);
@@ -44,6 +45,7 @@ fn space_for(tier: Tier) -> Space {
             s.list("triggers", crate::checks::c08::triggers().len() as u64, 16);
             s.list("whitespace under x", xws_crash_cases().len() as u64, 16);
             s.list("extreme counts", extreme_count_cases().len() as u64, 16);
+            s.list("deep nesting", (DEEP_SHAPES.len() * DEEP_DEPTHS.len()) as u64, 1);
         }
     }
     s
@@ -87,6 +89,45 @@ pub fn extreme_count_cases() -> Vec<String> {
         }
     }
     v
+}
+
+/// Deeply nested patterns: (shape, depth) -> pattern text.
+pub const DEEP_SHAPES: [&str; 6] = ["((..a..))", "(?:(?:..a..))", "(a|(a|..))", "[a-[a-[..]]]", "(a(a(..)?)?)?", "((a)+)+ .."];
+pub const DEEP_DEPTHS: [usize; 4] = [32, 128, 256, 100_000];
+
+pub fn deep_pattern(shape: usize, depth: usize) -> String {
+    let rep = |s: &str| s.repeat(depth);
+    match shape {
+        0 => format!("{}a{}", rep("("), rep(")")),
+        1 => format!("{}a{}", rep("(?:"), rep(")")),
+        2 => format!("{}a{}", rep("(a|"), rep(")")),
+        3 => format!("{}[a]{}", rep("[a-"), rep("]")),
+        4 => format!("{}a{}", rep("(a"), rep(")?")),
+        _ => format!("{}a{}", rep("("), rep(")+")),
+    }
+}
+
+/// Runs in the `deepcase` subprocess on a thread with a fixed stack.
+pub fn deep_case_main(shape: usize, depth: usize, xsd: bool) -> String {
+    let text = deep_pattern(shape, depth);
+    if xsd && shape == 1 {
+        return "SKIP".to_string();
+    }
+    let mut v = vec![];
+    match imp::compile(&text, "", xsd) {
+        Out::Ok(re) => {
+            v.push("compile=Ok".to_string());
+            for inp in ["", "a", "aa"] {
+                let s = imp::surface(&re, inp, "<$0>");
+                v.push(if s.any_crash() { format!("CRASH {}", s.show()) } else { "ok".to_string() });
+            }
+            // dropping the program recurses as well
+            drop(re);
+        }
+        Out::Err(e) => v.push(format!("compile=Err({:?})", e)),
+        o => v.push(format!("compile=CRASH {:?}", o.map(|_| ()))),
+    }
+    v.join(" ")
 }
 
 fn flag_string(mut idx: u64) -> String {
@@ -259,6 +300,36 @@ impl Check for Crash {
                         }
                     }
                     j.out.sample(J::obj(vec![("pattern_with_whitespace", J::s(text)), ("flags", J::s("x, xi, xq"))]));
+                }
+            }
+            SegKind::List { name: "deep nesting" } => {
+                // each case in its own process (a stack overflow aborts the process)
+                let exe = std::env::current_exe().expect("current exe");
+                for i in lo..hi {
+                    let (shape, depth) = ((i as usize) / DEEP_DEPTHS.len(), DEEP_DEPTHS[(i as usize) % DEEP_DEPTHS.len()]);
+                    for xsd in [false, true] {
+                        j.out.inc("states");
+                        let o = std::process::Command::new(&exe).arg("deepcase").arg(shape.to_string()).arg(depth.to_string()).arg(if xsd { "1" } else { "0" }).output();
+                        let (status_ok, line) = match &o {
+                            Ok(o) => (o.status.success(), String::from_utf8_lossy(&o.stdout).trim().to_string()),
+                            Err(e) => (false, format!("spawn failed: {}", e)),
+                        };
+                        if line == "SKIP" {
+                            continue;
+                        }
+                        j.out.inc("validated");
+                        j.out.inc("nontrivial");
+                        if j.id != "C05" {
+                            continue;
+                        }
+                        let case = Case::new(&scope_name, &format!("{} depth {}", DEEP_SHAPES[shape], depth), "").xsd(xsd).api("all");
+                        if !status_ok {
+                            j.out.fail("C05", &case, "Abort", "every call returns (Ok or a classified Err)", "the process aborted (stack overflow)", "run on a thread with a 16 MiB stack in a subprocess");
+                        } else if line.contains("CRASH") || line.contains("PANIC") || line.contains("Internal") {
+                            j.out.fail("C05", &case, "Panic", "every call returns (Ok or a classified Err)", &line, "");
+                        }
+                    }
+                    j.out.sample(J::obj(vec![("shape", J::s(DEEP_SHAPES[shape])), ("depth", J::i(depth))]));
                 }
             }
             SegKind::List { name: "extreme counts" } => {
